@@ -188,9 +188,9 @@ Step ==
             /\ brokenSeen' = (IF e.same THEN brokenSeen ELSE FALSE)
             /\ UNCHANGED <<kindOf, started, finished, resolved, cancelled, cancelling, running, live, crashed, crashedSettled, exited, deleted, timeouts, hasTmo, multi, tmoInCall, liveAtCall, subAfterShut>>
             /\ Check(<< <<"C09", (e.broken \/ e.shutdown) /\ ~multi /\ ~crashed, "C09: get_reusable_executor returned an executor that is broken or shut down">>,
-                        <<"C09", e.maxw # e.n, "C09: the returned executor does not have the requested max_workers">>,
+                        <<"C09", e.maxw # e.n /\ ~(multi /\ e.shutdown), "C09: the returned executor does not have the requested max_workers">>,
                         <<"C10", e.same /\ e.nbefore > 0 /\ e.nproc # e.n /\ ~hasTmo /\ ~multi /\ ~crashed, "C10: resize returned without the requested number of workers">>,
-                        <<"C10", e.same /\ e.nproc > e.n, "C10: resize returned with more workers than requested">>,
+                        <<"C10", e.same /\ e.nproc > e.n /\ ~(multi /\ e.shutdown), "C10: resize returned with more workers than requested">>,
                         <<"C10", e.same /\ ~hasTmo /\ ~multi /\ ~crashed /\ e.nbefore >= tmoInCall
                                  /\ e.kept < (IF e.nbefore - tmoInCall < e.n THEN e.nbefore - tmoInCall ELSE e.n),
                                  "C10: resize restarted worker processes it should have kept">>,
